@@ -49,4 +49,24 @@ func init() {
 		Monitors: func() []mon.Monitor { return []mon.Monitor{mon.NewC11()} },
 		Plan:     plan([]run.PlanItem{pi("mix", 12)}, []run.PlanItem{pi("mix", 64)}),
 		Assume:   []string{boundsAssume}}
+	run.Props["C12"] = &run.PropSpec{ID: "C12", Level: "exploration",
+		Rule:     "one evaluation = one denom's TotalCommitted-vs-sum equation, one custody inequality, or one (account, denom) lock-up inequality; distinct = operands changed and new. Committed amounts are diffed at every tx / block-phase boundary to build the monitor's own uncommit ledger and the reference lock-up ledger",
+		Monitors: func() []mon.Monitor { return []mon.Monitor{mon.NewC12()} },
+		Plan:     plan([]run.PlanItem{pi("commit-life", 8), pi("mix", 6)}, []run.PlanItem{pi("commit-life", 32), pi("mix", 24), pi("rewards", 8)}),
+		Assume:   []string{boundsAssume, "lock-up reference: every increase of committed oracle-pool shares is locked for 3600 s of block time; leveragelp ClosePositions and the leveragelp sweep may override (their justification is C10's)"}}
+	run.Props["C13"] = &run.PropSpec{ID: "C13", Level: "exploration",
+		Rule:     "one evaluation = one reward denom's solvency inequality after a block, one per-block credit-vs-inflow inequality, or one holder's claimable amount that changed at a tx / block-phase boundary; distinct = operands changed and new; plus the drain test (every holder claims in seeded random order)",
+		Monitors: func() []mon.Monitor { return []mon.Monitor{mon.NewC13()} },
+		Plan:     plan([]run.PlanItem{pi("rewards", 10)}, []run.PlanItem{pi("rewards", 48), pi("mix", 16)}),
+		Assume:   []string{boundsAssume, "pending is recomputed from the stores for every account that has a commitment or a user-reward record"}}
+	run.Props["C15"] = &run.PropSpec{ID: "C15", Level: "exploration",
+		Rule:     "one evaluation = one denom's supply after a committed block (delta explained by the block's bank mint/burn events, rule per denom class) or one sum-of-balances equation; distinct = supply value changed and new; every mint/burn event is attributed to its tx / block phase",
+		Monitors: func() []mon.Monitor { return []mon.Monitor{mon.NewC15()} },
+		Plan:     plan([]run.PlanItem{pi("mix", 6), pi("commit-life", 4), pi("rewards", 4)}, []run.PlanItem{pi("mix", 32), pi("commit-life", 16), pi("rewards", 16)}),
+		Assume:   []string{boundsAssume, "IBC vouchers are observed only as 'unchanged' (no counterparty chain in the sandbox)"}}
+	run.Props["C18"] = &run.PropSpec{ID: "C18", Level: "fault_enumeration",
+		Rule:     "one evaluation = one block driven through FinalizeBlock+Commit (error / recovered panic recorded by the driver); distinct = (height, AppHash) pairs; base histories x enumerated fault schedules (oracle outages, block-time gaps, parameter-edge governance)",
+		Monitors: func() []mon.Monitor { return []mon.Monitor{mon.NewC18()} },
+		Plan:     plan([]run.PlanItem{pi("rewards", 4), pi("mix", 4), pi("commit-life", 4)}, []run.PlanItem{pi("rewards", 16), pi("mix", 16), pi("commit-life", 16)}),
+		Assume:   []string{boundsAssume}}
 }
